@@ -33,9 +33,9 @@ def build(prop):
     return vlib.build_harness("wire", "agent/yubiagent", OVERLAY, outdir=os.path.join(vlib.OUT, prop, "bin"))
 
 
-def model_check(prop, tier, extra_cfg=""):
+def model_check(prop, tier, extra_cfg="", cfg=None, actions=None):
     """TLC checks the property formula (and the design invariants) on the bounded model; returns the TLC result."""
-    cfg = MC[prop][tier]
+    cfg = cfg or MC[prop][tier]
     wd = vlib.workdir(prop, "mc_" + cfg)
     txt = open(os.path.join(vlib.SPEC, cfg + ".cfg")).read() + extra_cfg
     with open(os.path.join(wd, "run.cfg"), "w") as f:
@@ -47,7 +47,7 @@ def model_check(prop, tier, extra_cfg=""):
         raise NoVerdict("TLC failed on %s: %s" % (cfg, r.error or r.stdout[-2000:]))
     log("[tlc] %s: %d generated / %d distinct, depth %d, %.1fs" % (cfg, r.generated, r.distinct, r.depth, r.wall))
     # (TLC reports the first conjunct of an initial predicate as 0:0; only next-state actions count)
-    r.coverage_zero = [a for a in r.coverage_zero if a in ACTIONS[prop]]
+    r.coverage_zero = [a for a in r.coverage_zero if a in (actions or ACTIONS[prop])]
     if r.coverage_zero:
         raise NoVerdict("vacuous model run: actions never taken under %s: %s" % (cfg, r.coverage_zero))
     return r, cfg
@@ -56,6 +56,11 @@ def model_check(prop, tier, extra_cfg=""):
 def key_c12(rec):
     """Names the input class of a rejected stream: its items (kind/code/length class/body class/aux/variant) and how it ended."""
     e = rec["e"]
+    if e.get("conc", 1) > 1:
+        ks = e.get("kinds") or []
+        bad = sum(1 for i, it in enumerate(e["items"]) if it["k"] == "frame" and it["code"] == 11 and it["len"] == "1" and i < len(ks) and ks[i] != "identities")
+        return "conc=%d frames=%d lists_not_answered_with_identities=%d nrep=%d post=%s pan=%s" % (
+            e["conc"], len(e["items"]) - 1, bad, e["nrep"], rec["post"]["st"], str(e["pan"]).lower())
     vs = (rec.get("info") or {}).get("vars") or [""] * len(e["items"])
     toks = []
     for it, v in zip(e["items"], vs):
@@ -111,13 +116,51 @@ def judge(prop, verdict, traces, label, drift):
             text = "step %d of trace %s (and %d identical traces) is not a step %s allows: %s" % (
                 li, rec["tid"], mult[ti] - 1, fml,
                 ("%d response frames %s, service ended '%s' (%s), responses while each item was current %s" % (
-                    rec["e"]["nrep"], (rec.get("info") or {}).get("replies"), rec["post"]["st"], (rec.get("info") or {}).get("ret"),
+                    rec["e"]["nrep"], ((rec.get("info") or {}).get("replies") or [])[:40], rec["post"]["st"], (rec.get("info") or {}).get("ret"),
                     (rec.get("info") or {}).get("attributed"))) if prop == "C12" else why_c13(rec["e"]))
             verdict.violation(k, text, rp)
     for (ti, li) in rejected["Strict"]:
         if (ti, li) not in rejected[fml]:
             drift.append({"trace": ts[ti][0]["tid"], "step": ts[ti][li].get("e")})
     return nall, vst
+
+
+FATAL_RE = re.compile(r"fatal error: concurrent map[^\n]*")
+
+
+def run_conc(prop, binp, plan, label, timeout):
+    """The multi-connection stage runs in its own process: unsynchronised access to a shared map makes the Go runtime
+    abort the whole process ('fatal error: concurrent map ...', not recoverable).  That death is the observation
+    'the process crashed while serving well-formed requests'; it is handed to TLC as a crashed connection."""
+    wd = vlib.workdir(prop, "run_" + label)
+    planp, outp = os.path.join(wd, "plan.json"), os.path.join(wd, "obs.ndjson")
+    with open(planp, "w") as f:
+        json.dump(plan, f)
+    rc, out, err, summ = vlib.run_harness(binp, "TestVerifWireConc", {"VERIF_PLAN": planp, "VERIF_OUT": outp}, timeout=timeout, cwd=wd)
+    if rc != 0 or not summ:
+        m = FATAL_RE.search(err) or FATAL_RE.search(out)
+        if not m:
+            raise NoVerdict("wire harness (concurrent stage) failed (rc=%d):\n%s\n%s" % (rc, out[-3000:], err[-3000:]))
+        txt = err if FATAL_RE.search(err) else out
+        i = txt.index(m.group(0))
+        lst = {"k": "frame", "code": 11, "len": "1", "body": "none", "aux": "none"}
+        pre = {"pos": 1, "st": "running", "out": []}
+        info = {"conc": dict(plan, seed=vlib.seed(), session=-1), "fatal": m.group(0), "stack": txt[i:i + 3000]}
+        crash = [{"ev": "reset", "fam": "w", "tid": "kfatal", "post": pre, "info": info},
+                 {"ev": "step", "fam": "w", "tid": "kfatal", "pre": pre,
+                  "e": {"items": [lst], "nrep": 0, "nrel": 0, "pan": True, "big": False, "conc": 2, "kinds": []},
+                  "post": {"pos": 2, "st": "crashed", "out": []},
+                  "info": {"vars": ["process died: " + m.group(0)], "ret": m.group(0), "replies": [], "attributed": []}}]
+        log("[harness] the process serving the concurrent connections died: %s" % m.group(0))
+        return [crash], {"stats": {"process_died": 1}, "samples": []}
+    recs = []
+    with open(outp) as f:
+        for line in f:
+            try:
+                recs.append(json.loads(line))
+            except ValueError:
+                pass
+    return vlib.split_traces(recs), summ
 
 
 def run_harness(prop, binp, plan, label, timeout):
@@ -136,6 +179,14 @@ def replay(prop, path):
     recs = vlib.read_ndjson(path)
     info = recs[0].get("info") or {}
     binp = build(prop)
+    if prop == "C12" and "conc" in info:
+        # the concurrent stage is re-run as a whole with the recorded seed (the interleaving is the scheduler's)
+        os.environ["VERIF_SEED"] = str(info["conc"].get("seed", vlib.seed()))
+        ts, summ = run_conc(prop, binp, {"sessions": info["conc"]["sessions"], "rounds": info["conc"]["rounds"]}, "replay", 1200)
+        verdict, drift = vlib.Verdict(prop), []
+        judge(prop, verdict, ts, "replay", drift)
+        log("replayed the concurrent stage: %s" % json.dumps(summ.get("stats")))
+        return verdict.finish()
     if prop == "C12":
         plan = {"streams": [], "groups": {}, "group_of": {}, "sweep": False, "random": 0, "maxlen": 1,
                 "replays": [{"items": info["items"], "conn": info.get("conn", "mem")}], "workers": 1}
@@ -169,14 +220,30 @@ def run(prop, tier):
         if st.get("streams", 0) < len(streams):
             raise NoVerdict("the harness replayed %d of %d exported streams" % (st.get("streams", 0), len(streams)))
         nval, vst = judge(prop, verdict, ts, cfg, drift)
+        # several connections to one server at the same time (AgentWire part 3)
+        rc_, ccfg = model_check(prop, tier, cfg=cfg.replace("12", "12c"), actions=("StartC", "ConsumeC"))
+        cplan = {"sessions": 80 if tier == "quick" else 600, "rounds": 12}
+        cts, csumm = run_conc(prop, binp, cplan, ccfg, 3000)
+        cst = csumm["stats"]
+        if not cst.get("process_died") and cst.get("sessions", 0) < cplan["sessions"]:
+            raise NoVerdict("the concurrent stage ran %d of %d sessions" % (cst.get("sessions", 0), cplan["sessions"]))
+        cval, _ = judge(prop, verdict, cts, ccfg, drift)
+        nval += cval
+        r.distinct += rc_.distinct
+        r.generated += rc_.generated
+        summ["samples"] = (summ["samples"] or [])[:4] + (csumm["samples"] or [])[:2]
         cov = {"states": r.distinct, "transitions": r.generated, "traces_validated_against_impl": nval,
+               "concurrent_sessions": cst.get("sessions", 0), "concurrent_connections": cst.get("connections", 0),
+               "concurrent_rounds": cst.get("rounds", 0), "concurrent_frames": cst.get("frames", 0),
+               "concurrent_process_died": cst.get("process_died", 0),
                "samples": summ["samples"] or [["(no sample)"]], "exhaustive": True,
                "exported_streams": len(streams), "replayed_streams": st.get("streams", 0),
                "streams_over_net_pipe": st.get("streams_pipe", 0), "random_streams": plan["random"],
                "evaluations": st.get("steps", 0), "distinct_nontrivial": st.get("distinct_labels", 0),
                "message_codes_exercised": st.get("codes_seen", 0), "panics_observed": st.get("panics", 0),
                "rule": "every stream of <= 3 items of the bounded model is instantiated with concrete bytes and served by the real ServeAgent; every code 0..255 in every frame shape; random/grammar streams; every served stream (items, number of response frames, end status, panic, allocation) is judged by TLC with C12_Stream, the set of outcomes the statement allows for that item list, independent of how the server reads its input (distinct_nontrivial = distinct (item class, responses while current, end) labels observed; evaluations = items served)",
-               "spec_drift": len(drift), "zero_coverage_actions": r.coverage_zero, "model_cfgs": [cfg]}
+               "spec_drift": len(drift), "zero_coverage_actions": r.coverage_zero, "model_cfgs": [cfg, ccfg]}
+        cov["rule"] += "; concurrent stage: 2..8 connections to one real NewServer, each sending well-formed frames in lock step at the same time while the shim holds expired hardware certificates; per connection judged with C12_Conn (stream outcome + every list request answered with an identities answer); the stage runs in its own process and a runtime abort ('fatal error: concurrent map ...') is judged as a crashed connection"
         assumptions = ["the underlying agent is x/crypto's keyring behind the harness frame proxy on a unix socket; it answers every forwarded request unless the harness makes it close the connection",
                        "only the number of response frames and the end status are judged (responses are not attributed to requests: a server may read ahead); order is therefore checked as a count per stream prefix, not by response content",
                        "allocation is runtime.MemStats.TotalAlloc around the ServeAgent call, measured with no other stream running; 'allocates for the frame' means >= 1 MiB"]
